@@ -1,5 +1,6 @@
 import GemVerif.Props.C02
 import GemVerif.Props.C02Wass
+import GemVerif.Props.C02Fast
 #print axioms GemVerif.Props.C02.klGrad_clipped_zero
 #print axioms GemVerif.Props.C02.tvGrad_clipped_zero
 #print axioms GemVerif.Props.C02.hellingerGrad_clipped_zero
@@ -23,3 +24,10 @@ import GemVerif.Props.C02Wass
 #print axioms GemVerif.Props.C02Wass.wass_ovo_hasDerivAt_of_envelope
 #print axioms GemVerif.Props.C02Wass.wassGrad_shift_invariant
 #print axioms GemVerif.Props.C02Wass.emdEnvelopeAt_shift_invariant
+#print axioms GemVerif.Props.C02Fast.mmdAlphaFast_eq
+#print axioms GemVerif.Props.C02Fast.mmdGammaFast_eq
+#print axioms GemVerif.Props.C02Fast.mmdDeltaOvoFast_eq
+#print axioms GemVerif.Props.C02Fast.mmdDeltaOvaFast_eq
+#print axioms GemVerif.Props.C02Fast.mmdScoreFast_eq
+#print axioms GemVerif.Props.C02Fast.mmdGradFast_eq
+#print axioms GemVerif.Props.C02Fast.mmdGradFast_apply
